@@ -56,6 +56,10 @@ def run(ck):
     base = numpy.array(BASE, dtype=complex)
     rng = ck.rng
 
+    def tk(tag):
+        """wire token of a pathway tag (None -> '-', '' -> 'EMPTY'); falsy tags 0 and '' are legal tags"""
+        return "-" if tag is None else ("EMPTY" if tag == "" else str(tag))
+
     def arr(v):
         return v * base.copy()
 
@@ -78,7 +82,7 @@ def run(ck):
         for k, v in r._d__data.items():
             if isinstance(v, dict):
                 for tg, a in v.items():
-                    items.append("%s@%s=%s" % (k, "-" if tg is None else tg, dec(a)))
+                    items.append("%s@%s=%s" % (k, tk(tg), dec(a)))
             else:
                 items.append("%s@-=%s" % (k, dec(v)))
         return ("res=%d " % ri) + " ".join(sorted(items))
@@ -115,7 +119,7 @@ def run(ck):
                 resarg = None if (lev == cur and rng.random() < 0.5) else ress[lev]
                 name = rng.choice(level_names[lev]) if rng.random() < 0.9 else rng.choice(ptypes + list(procs) + list(sigs) + [total, "XYZ"])
                 if lev == 4:
-                    tag = rng.choice(["a", "b", "c", "d", "e", "f"]) if rng.random() < 0.92 else None
+                    tag = rng.choice(["a", "b", "c", "d", "e", 0, ""]) if rng.random() < 0.92 else None
                 else:
                     tag = None if rng.random() < 0.93 else "a"
                 v = rng.randint(-9, 9)
@@ -131,7 +135,7 @@ def run(ck):
                     if cells_of(dump(r)) != cells_of(before):
                         ck.fail("refused-changed:add", "a refused _add_data changed the stored data",
                                 {"history": hist + [("add", resarg, name, tag, v)]}, dump(r), before)
-                op = "add %s %s %s %d" % (resarg or "-", name, tag or "-", v)
+                op = "add %s %s %s %d" % (resarg or "-", name, tk(tag), v)
             elif x < 0.67:
                 new = rng.choice(ress + ["bogus"]) if rng.random() < 0.5 else ress[max(0, cur - rng.randint(0, 2))]
                 before = dump(r)
@@ -149,7 +153,7 @@ def run(ck):
                 op = "setres %s" % new
             else:
                 name = rng.choice(ptypes + list(procs) + list(sigs) + [total] * 4 + ["XYZ"])
-                tag = rng.choice(["a", "b", "c"]) if rng.random() < 0.3 else None
+                tag = rng.choice(["a", "b", "c", 0, ""]) if rng.random() < 0.3 else None
                 if not r.storage_initialized:
                     out = "uninit"
                 else:
@@ -158,7 +162,7 @@ def run(ck):
                         out = dec(r.d__data)
                     except Exception:
                         out = "error"
-                op = "read %s %s" % (name, tag or "-")
+                op = "read %s %s" % (name, tk(tag))
             hist.append(op)
             lines.append(op); impl.append(out)
             if not op.startswith("read"):
